@@ -273,4 +273,24 @@ def run(pid: str, tier: str, seed: int, selftest=False, replay=None) -> int:
                               f"({len(bad)}/{len(vs)} oracles fail)",
                               {"source": c["text"], "pipeline": passname, "after": c["b_text"], "oracle": oracle_at(c, oi),
                                "argdom": c["argdom"], "opqdom": c["opqdom"], "clause": verdict})
+    if pid == "C07":
+        # what is assumed must also survive the pass that ends state chains (its walk over uses through control flow is part of the state
+        # inference code): after the real accfg-insert-resets every launch still observes what it observed before - a reset gives the
+        # registers up, so a reset placed in the middle of a chain that later setups still build on shows as a lost field
+        # (input classes outside the three observations recorded under known/E01, see DESIGN.md section 10)
+        from checks_extra import resets_cases
+        rcases = resets_cases(rep, seed, 120 if tier == "quick" else 2000, allpaths=False, prefix="resets")
+        for lo in range(0, len(rcases), 400):
+            chunk = rcases[lo:lo + 400]
+            r, per = run_pair_batch(pid, "resets", chunk, tag=f"resets{lo}")
+            rep.add_tlc(r)
+            for tid, vs in per.items():
+                c = chunk[tid - 1]
+                rep.evaluations += len(vs)
+                rep.traces += 1
+                bad = [v for v in vs if v[1] != "ok" and not v[1].startswith("skipA")]
+                if bad:
+                    oi, verdict, _, _ = sorted(bad)[0]
+                    rep.violation(c["name"], f"accfg-insert-resets: clause {verdict} fails for oracle {oracle_at(c, oi)} ({len(bad)}/{len(vs)} oracles)",
+                                  {"source": c["text"], "after": c["after"], "clause": verdict})
     return rep.finish(known)
